@@ -56,7 +56,7 @@ Section Slot.
       { destruct (flbad (hist tr)) eqn:E; auto. rewrite (flbad_mono tr _ E) in Hfl. discriminate. }
       destruct (Hi Hfl0) as (J & ND). split.
       + rewrite hist_app. cbn [Conc.tag map app fold_left acc]. rewrite hstep_acc, hstep_slot. cbn [hlen slotv lastw att linked scan freeh flbad].
-        eapply JA_quiet; [apply piA_slot_set| | | |exact J]; [|intros; reflexivity|].
+        eapply JA_quiet; [apply piA_slot_set| | | | |exact J]; [|intros; reflexivity|reflexivity|].
         * unfold hA. cbn. split; [|repeat split; auto].
           intros s'. destruct (gref_eqb s' s) eqn:E.
           -- right. exists (S (hlen (hist tr))). split; [unfold fupd; now rewrite E|lia].
